@@ -6,7 +6,7 @@ CONSTANTS
   MaxInit = 1
   EarlyForget = FALSE
   SwallowList = FALSE
-  Flags = {"RouteReplace", "RouteDel", "LinkList"}
+  Flags = {"RouteReplace", "LinkList"}
   MaxEnv = 1
   MaxFail = 1
 INIT Init
